@@ -1345,7 +1345,15 @@ impl World {
             if let Some(m) = self.maps[mid].take() {
                 self.refs[mid] = None;
                 self.split_track[mid] = None;
-                let _ = windowed(move || drop(m));
+                let documented = p == "injected" || (p == "capacity_overflow" && matches!(op, Op::Reserve { .. } | Op::New { .. } | Op::Extend { .. }));
+                if documented {
+                    let _ = windowed(move || drop(m));
+                } else {
+                    // nothing is known about a map that panicked where it must not: do not even run
+                    // its destructor (the violation is already recorded; a crash would only lose it)
+                    std::mem::forget(m);
+                    self.leak_allowed = true;
+                }
                 if !self.quiet_transcript {
                     self.transcript.push(format!("forget {mid} | | "));
                 }
